@@ -402,6 +402,44 @@ def check_refusals(ctx, rng, index, via):
                         rec.hit('retries-accepted-without-merge')
                 else:
                     rec.hit('retries-refused')
+    if via == 'function' and index % 3 == 1:
+        # a load dies part-way (a timestamp the format does not allow, '24:00:00', in the ET file,
+        # after the rainfall has been staged); the caller keeps the connection and loads the
+        # period that follows: refused, or exactly that period -- never merged with the leftovers
+        rec.case()
+        step_s = case['rstep']
+        n1 = rng.randint(6, 20)
+        r1 = [(i * step_s, 1.0 + i) for i in range(n1)]
+        e1_text = c10.text_of([(i * step_s, 0.1) for i in range(n1)]) + '2021-03-01 24:00:00,0.1\n'
+        z1 = [(i * step_s, -10.0 - i) for i in range(n1)]
+        connection = sqlite3.connect(':memory:')
+        try:
+            load_mod.load_data(connection, io.StringIO(c10.text_of(r1)), io.StringIO(e1_text), io.StringIO(c10.text_of(z1)), 'UTC')
+            died = False
+        except Exception:  # pylint: disable=broad-except
+            died = True
+        if died:
+            n2 = rng.randint(6, 20)
+            r2 = [((n1 + i) * step_s, 2.0 + i) for i in range(n2)]
+            e2 = [((n1 + i) * step_s, 0.2) for i in range(n2 + 1)]
+            z2 = [((n1 - 3 + i) * step_s, -50.0 - i) for i in range(n2 + 3)]  # starts inside the first period
+            args = lambda: (io.StringIO(c10.text_of(r2)), io.StringIO(c10.text_of(e2)), io.StringIO(c10.text_of(z2)), 'UTC')
+            try:
+                load_mod.load_data(connection, *args())
+                accepted = True
+            except Exception:  # pylint: disable=broad-except
+                accepted = False
+            rec.hit('retries-on-the-same-connection')
+            if accepted:
+                fresh = sqlite3.connect(':memory:')
+                load_mod.load_data(fresh, *args())
+                if data.dump(connection) != data.dump(fresh):
+                    rec.violation('load-after-a-refused-load-merged-leftover-rows', {'first_attempt': 'died on a 24:00:00 timestamp in the ET file'},
+                                  {'kind': 'retry', 'rstep': step_s, 'n1': n1, 'n2': n2}, 'refusal')
+                else:
+                    rec.hit('retries-accepted-without-merge')
+            else:
+                rec.hit('retries-refused')
     for name, rain, et, z in variants:
         rec.case()
         if name == 'et-row-removed' and len(et) == len(case['et']):
